@@ -56,7 +56,8 @@ func runScenario(ctx *hx.Ctx, w *crashsim.World, scn *crashsim.Scenario, source 
 		}
 		ctx.Violation(class, summary, replayDoc{Scenario: &one, Cut: cut, Note: source}, found)
 	}
-	// (i) write sequence of every import
+	// (i) write sequence of every import (reported after the cuts: a concrete failing cut is the better replay)
+	var seqMismatch []string
 	stored, forks, storePoints, withTx := 0, 0, 0, 0
 	for i, d := range run.Deliveries {
 		want := crashsim.RenderBatches(run.U.Eng.Log(d.From, d.To))
@@ -72,9 +73,9 @@ func runScenario(ctx *hx.Ctx, w *crashsim.World, scn *crashsim.Scenario, source 
 				withTx++
 			}
 		}
-		if got != want {
-			report("write-sequence", fmt.Sprintf("delivery %d (block #%d): the node issued [%s], the model [%s]", i, d.Block.Header().Number(),
-				kindsOfRendered(want), kindsOfRendered(got)), -1, false)
+		if crashsim.CanonWrites(got) != crashsim.CanonWrites(want) {
+			seqMismatch = append(seqMismatch, fmt.Sprintf("delivery %d (block #%d): the node issued [%s], the model [%s]", i, d.Block.Header().Number(),
+				kindsOfRendered(want), kindsOfRendered(got)))
 		}
 	}
 	if u := first[len(run.Preamble)]; u != run.Final.Best+" "+run.Final.Fin+" "+run.Final.Tallies {
@@ -119,6 +120,9 @@ func runScenario(ctx *hx.Ctx, w *crashsim.World, scn *crashsim.Scenario, source 
 		if res.ExtraSet {
 			ctx.Cov.Count("resume:stored-a-block-the-uninterrupted-node-rejected")
 		}
+	}
+	for _, m := range seqMismatch {
+		report("write-sequence", m, -1, false)
 	}
 	canon, _ := json.Marshal(scn)
 	nontrivial := stored >= 8 && storePoints >= 2 && (forks > 0 || withTx > 0)
@@ -198,7 +202,7 @@ func main() {
 			}
 		}
 		rnd := hx.NewRand(ctx.Seed)
-		chains := ctx.Scale(6, 80)
+		chains := ctx.Scale(12, 120)
 		for i := 0; i < chains; i++ {
 			mainLen := rnd.Range(5*int(cfg.L), 7*int(cfg.L))
 			scn := crashsim.Gen(rnd.Fork(uint64(i)), cfg, mainLen)
